@@ -77,7 +77,8 @@ RndValue(seed) ==
       sets == [k \in 1..n |-> MkSet([g \in 0..7 |-> 1 + (r[3 + 9 * (k - 1) + g] % 6)], nm, r[3 + 9 * (k - 1) + 8] % 2 = 0)]
   IN MkValue(Combos[1 + (r[32] % 4)], sets)
 RndSeeds == IF Quick THEN {} ELSE { (2000 + 131 * k + 17 * SeedBase) % 65537 : k \in 1..6 }
-RndSteps == 250
+RndSteps == 1200
+GenRndSteps == 300     \* of which this many per chain are also printed for replay
 
 VARIABLE c
 Init == c = [k |-> "root"]
@@ -113,6 +114,6 @@ Inv == CASE c.k = "val" -> Laws(c.v)
 EmitOne(v) == LET ct == ASetContent(v) IN
               PrintT("G " \o ToJson([value |-> v, content |-> ct, image |-> ImageOrNone(ct)]))
 Emit == CASE c.k = "val" -> EmitOne(c.v)
-          [] c.k = "rnd" -> EmitOne(RndValue(c.seed))
+          [] c.k = "rnd" /\ c.step < GenRndSteps -> EmitOne(RndValue(c.seed))
           [] OTHER -> TRUE
 =============================================================================
